@@ -238,6 +238,65 @@ def remove_argument(rng, ir):
     return [a.name]
 
 
+def _own_argument_edit(rng, ir, kind):
+    """Argument edits on one type's own copy of a (pooled) field: an interface and its implementations
+    may legitimately differ in optional arguments and in defaults, so each side is diffed on its own."""
+    sg = S.SchemaGen(rng)
+    sg.s = ir
+    cands = []
+    for t in ir.types.values():
+        if t.kind != kind:
+            continue
+        if kind == "object" and not t.interfaces:
+            continue
+        for f in t.fields:
+            cands.append((t, f))
+    if not cands:
+        return None
+    t, f = rng.choice(cands)
+    g = copy.copy(f)
+    modes = ["default"] if kind == "interface" else ["default", "add-optional"]
+    if kind == "interface" and any(not required(a) for a in f.args):
+        modes.append("remove-optional")
+    mode = rng.choice(modes)
+    if mode == "add-optional":
+        name = "ownArg%d" % rng.randint(0, 999)
+        g.args = list(f.args) + [SInput(name, named("Int"))]
+        needle = name
+    elif mode == "remove-optional":
+        a = rng.choice([a for a in f.args if not required(a)])
+        g.args = [x for x in f.args if x is not a]
+        needle = a.name
+    else:
+        if not f.args:
+            return None
+        a = rng.choice(f.args)
+        b = copy.copy(a)
+        if a.has_default:
+            if a.type[0] == "nonnull":
+                return None
+            b.default = UNSET
+        else:
+            d = sg.input_value_for(a.type, depth=2)
+            if d is None:
+                return None
+            b.default = d
+        g.args = [b if x is a else x for x in f.args]
+        needle = a.name
+    t.fields = [g if x is f else x for x in t.fields]
+    return [needle]
+
+
+@edit
+def interface_own_argument_edit(rng, ir):
+    return _own_argument_edit(rng, ir, "interface")
+
+
+@edit
+def implementation_own_argument_edit(rng, ir):
+    return _own_argument_edit(rng, ir, "object")
+
+
 def _retype_arg(rng, ir, how):
     c = pick_arg(rng, ir, lambda a: retype(a.type, how) is not None and not a.has_default)
     if not c:
